@@ -40,6 +40,8 @@ meta = {
     'checks_run': [{'check': c, 'tier': 'quick', 'exit': int(e), 'detected': int(e) == 1,
                     'first_lines': [l[:300] for l in out.strip().split('\n') if l.strip()][:4]} for c, out, e in checks],
 }
+meta['base_commit'] = os.environ.get('SEED_BASE', '60abf79')
+meta['round'] = tag or 'r1'
 if len(sys.argv) > 3:
     meta['remarks'] = ' '.join(sys.argv[3:])
 json.dump(meta, open(os.path.join(dst, 'meta.json'), 'w'), indent=1)
